@@ -69,6 +69,7 @@ func runC19(c *Ctx) {
 	// the aligner keeps clones of its inputs
 	c.checkAlignerHoldsClones()
 	c.effectsControls()
+	c.checkHandedOverBuffers("handed-over-buffer-fresh", "align", "io/fasta", "io/phylip", "io/nexus", "io/clustal", "io/stockholm", "cmd")
 }
 
 // effectsControls runs the engine on sa/controls/effects.go: it must report
